@@ -39,6 +39,7 @@ type c01cfg struct {
 	pClose   int
 	wrap     bool
 	surplus  bool
+	exhaust  bool // family: wire-ID exhaustion next to the 16-bit wrap (see c01Exhaust)
 	maxCQ    int
 	w        *W1
 }
@@ -88,6 +89,13 @@ func c01Setup(rc *RunCtx) simrt.Config {
 			c.pDrop, c.pDup, c.pCancel, c.pStray, c.pClose = 0, 0, 0, 0, 0
 		}
 	}
+	if r.Choose(30) == 0 {
+		c.exhaust = true
+		cfg.MaxSteps = 400000
+		c.kind = []TransportKind{TkPipelineStream, TkPipelineDgram}[r.Choose(2)]
+		c.wrap, c.surplus = false, false
+	}
+	rc.Cfg["id_exhaustion"] = c.exhaust
 	rc.Net.ChunkMode = r.Choose(3)
 	rc.Cfg["strategy"] = sname
 	rc.Cfg["kind"] = c.kind.String()
@@ -109,11 +117,101 @@ func c01Setup(rc *RunCtx) simrt.Config {
 	return cfg
 }
 
+// c01Exhaust: query X holds wire ID 0 unanswered; 100 more unanswered queries
+// hold IDs 65436..65535; the allocator is put back on 65436 (the state after
+// ~65k further queries), so the next query finds all of its 100 candidate IDs
+// busy and is refused. The query after that starts its search at ID 0. When the
+// server finally answers everything (correct IDs, its own order), every
+// successful call must still hold the reply to its own query.
+func c01Exhaust(rc *RunCtx, c *c01cfg, w *W1) {
+	stream := c.kind == TkPipelineStream
+	network := "udp"
+	if stream {
+		network = "tcp"
+	}
+	hold := make(chan struct{})
+	plan := func(sc *simnet.Conn, nth int, call *Call, wid uint16) Action {
+		a := Action{HoldUntil: hold}
+		if simrt.Choose(2) == 0 {
+			a.Delay = time.Duration(simrt.Choose(5)) * time.Millisecond // replies leave in PRNG order
+		}
+		return a
+	}
+	rc.Net.Handle(network, srvAddr, w.Serve(ServerOpts{Plan: plan}))
+	var dcs []*transport.TraditionalDnsConn
+	u := transport.NewPipelineTransport(transport.PipelineOpts{
+		DialContext: func(ctx context.Context) (transport.DnsConn, error) {
+			nc, err := rc.Net.Dial(ctx, network, srvAddr)
+			if err != nil {
+				return nil, err
+			}
+			dc := transport.NewDnsConn(transport.TraditionalDnsConnOpts{WithLengthHeader: stream, MaxConcurrentQuery: 200}, nc)
+			dc.VerifSetNextQid(0)
+			dcs = append(dcs, dc)
+			return dc, nil
+		},
+	})
+	done := make(chan struct{}, 256)
+	n := 0
+	start := func(caller int, d time.Duration) *Call {
+		call := w.NewCall(caller, 0, uint16(simrt.Choose(65536)), 1)
+		ctx, cancel := context.WithTimeout(context.Background(), d)
+		call.Ctx, call.Cancel = ctx, cancel
+		n++
+		simrt.GoNamed(fmt.Sprintf("x%d", caller), func() {
+			w.Exchange(u, call)
+			cancel()
+			w.CheckProvenance(call)
+			simrt.Send(0, done, struct{}{})
+		})
+		return call
+	}
+	start(0, 30*time.Second) // X: wire ID 0
+	simrt.Sleep(0, time.Millisecond)
+	if len(dcs) != 1 {
+		rc.Inconcl = "no connection"
+		close(hold)
+		return
+	}
+	dcs[0].VerifSetNextQid(65436)
+	for i := 0; i < 100; i++ {
+		start(100+i, 30*time.Second)
+	}
+	simrt.Sleep(0, 5*time.Millisecond)
+	if q, _ := dcs[0].VerifQueueLen(); q != 101 || len(dcs) != 1 {
+		rc.Inconcl = fmt.Sprintf("%d queries queued on %d connections", q, len(dcs))
+	}
+	dcs[0].VerifSetNextQid(65436)
+	simrt.Fault("wire_id_rewind")
+	// refused for want of a wire ID (directly on the connection: a transport
+	// would retry elsewhere)
+	if rx, _ := dcs[0].ReserveNewQuery(); rx != nil {
+		p := w.NewCall(900, 0, 9, 1)
+		ctx, cancel := context.WithTimeout(context.Background(), 50*time.Millisecond)
+		if _, err := rx.ExchangeReserved(ctx, p.Query); err != nil && ctx.Err() == nil {
+			simrt.Probe("c01.refused_for_want_of_a_wire_id")
+		}
+		cancel()
+	}
+	start(1000, 30*time.Second) // Y: its search for a wire ID starts at 0
+	simrt.Sleep(0, time.Millisecond)
+	close(hold)
+	for i := 0; i < n; i++ {
+		simrt.Recv(0, done)
+	}
+	u.Close()
+}
+
 func c01Main(rc *RunCtx) {
 	c := rc.priv.(*c01cfg)
 	w := newW1(rc)
 	c.w = w
 	rc.StrictBufs = true
+	if c.exhaust {
+		w.CheckDupWid = true
+		c01Exhaust(rc, c, w)
+		return
+	}
 	w.CheckFrames = c.kind.stream() || c.kind == TkUDP // what the server receives must be some caller's intact query
 	plan := func(sc *simnet.Conn, nth int, call *Call, wid uint16) Action {
 		a := Action{}
